@@ -613,6 +613,7 @@ func addWide(a, b int64) (hi int64, lo uint64) {
 
 // explore runs the BFS for one buffer.
 func (c *ctx) explore(buf []byte) (states, transitions int64) {
+	c.sh.Tick()
 	c.buf = buf
 	c.base = uintptr(unsafe.Pointer(unsafe.SliceData(buf)))
 	type st struct {
